@@ -34,3 +34,13 @@ Theorem C04_mono_polarity_free : forall lut ws ds zreg r, wf_args ws ds zreg ->
   Forall dtab_polfree ds -> Forall strictly_increasing ws ->
   wave_eval lut ws ds zreg = Some r -> strictly_increasing (r_z r).
 Proof. exact mono_polarity_free. Qed.
+
+(** CIRCUIT LEVEL: every finite transition of every signal lies inside the window that static timing analysis of the
+    annotated op list permits for the given input transition windows *)
+From KV Require Import Model.SimOps Model.WaveOps.
+From KV Require Proofs.WaveCircuit.
+Theorem C04_sta_window : forall delays cap ops (e : wenv) (w0 : nat -> win),
+  KV.Proofs.WaveCircuit.good_delays delays -> KV.Proofs.WaveCircuit.good_caps cap -> (forall k, wf_wave (e k)) ->
+  (forall k, covers (w0 k) (e k)) ->
+  forall k, covers (sta delays ops w0 k) (wexec delays cap ops e k).
+Proof. exact KV.Proofs.WaveCircuit.sta_window. Qed.
